@@ -50,11 +50,11 @@ CHECKS = {
    note="Trusted: the sender model's ledger; hook counters for quiescence.",
    ref="6.2 C14"),
  "C10": dict(technique="property-based testing (rapid) of offence placement with fault behaviours of the peer (silent / keeps sending / floods / stops reading / closes); invariants over the observed history (GOAWAY vs handler log), bounded-time return with goroutine-dump evidence",
-   text="A catalogue of 24 connection-scoped offences (plus idle-timeout shutdown racing requests) is placed inside generated well-formed traffic with answered, in-flight (parked handlers) and trailing requests and five trailing behaviours of the peer. Checked: GOAWAY last-stream-id never below a dispatched stream, code within the RFC's set (or bare close), nothing after the offence dispatched, ServeConn returns with handlers released and leaves no goroutine. A missed 6 s bound is a violation only with a goroutine dump proving a permanent block (hand-off to an exited loop, Write to a peer the harness keeps from reading); otherwise inconclusive. Exploration only; internal schedules are sampled.",
+   text="A catalogue of 24 connection-scoped offences (plus idle-timeout shutdown racing requests) is placed inside generated well-formed traffic with answered, in-flight (parked handlers) and trailing requests and five trailing behaviours of the peer; optionally the peer first stops reading and fills the server's write queue exactly (hook counters) before the burst that carries the offence, and optionally the in-flight handlers hold every concurrency slot while a request on a lower, skipped id is refused. Checked: GOAWAY last-stream-id never below a dispatched stream, code within the RFC's set (or bare close), nothing after the offence dispatched, ServeConn returns with handlers released and leaves no goroutine. A missed 6 s bound is a violation only with a goroutine dump proving a permanent block (hand-off to an exited loop, Write to a peer the harness keeps from reading); otherwise inconclusive. Exploration only; internal schedules are sampled.",
    note="Trusted: appendix C of DESIGN for allowed codes; hook counters; Go runtime goroutine dumps as evidence.",
    ref="6.2 C10, appendix C"),
  "C13": dict(technique="property-based testing (rapid) of adversarial frame schedules with hook gauges as invariants and a metamorphic relation (schedule played 1x vs 4x)",
-   text="Generated attack schedules (rapid reset with parked handlers, half-open streams, PRIORITY on new ids, CONTINUATION floods incl. a never-completed string, oversized / mis-declared bodies, oversized header lists, PING/SETTINGS floods) against small limits; invariants at every quiescent point: concurrent handlers <= MaxConcurrentStreams, no handler for a request over a limit, stream table / closed-id memory / buffered header and body octets within limit-derived bounds (high-water marks from the stream loop's own gauges); playing the schedule four times must leave the gauges where one pass leaves them. Exploration only.",
+   text="Generated attack schedules (rapid reset with parked handlers, half-open streams, PRIORITY on new ids, CONTINUATION floods incl. a never-completed string, oversized / mis-declared bodies, oversized header lists in one block or only together with the trailers, a never-completed string on a stream refused because every slot is held, PING/SETTINGS floods) against small limits; invariants at every quiescent point: concurrent handlers <= MaxConcurrentStreams, no handler for a request over a limit, stream table / closed-id memory / buffered header and body octets within limit-derived bounds (high-water marks from the stream loop's own gauges); playing the schedule four times must leave the gauges where one pass leaves them. Exploration only.",
    note="Trusted: gauges published by the hook at the top of each stream-loop iteration; the bounds are derived from the configured limits plus one frame.",
    ref="6.2 C13"),
  "C17": dict(technique="fault-injecting property-based testing (rapid): recorded well-formed byte streams x cut offsets (sampled, and every offset of six fixed recordings) x structure-aware mutations x frame soups x peer/transport faults; invariants from the server log, goroutine dumps attributed to the connection, and the pool observer",
@@ -70,11 +70,11 @@ CHECKS = {
    note="Trusted: the scripted server's ledger; hook counters.",
    ref="6.2 C07"),
  "C11": dict(technique="property-based testing (rapid) over GOAWAY positions: invariants over the observed history across all scripted connections (HEADERS count per request tag, RoundTrip results)",
-   text="Generated positions of GOAWAY(last-stream-id, code) relative to 1..5 in-flight requests with partial responses, a possible REFUSED_STREAM, later answers in any order, connection loss, and further requests racing the GOAWAY. Checked per request tag over every connection the client dials: HEADERS at most once unless each earlier copy was disclaimed by its connection; no stream opened after the GOAWAY was seen; disclaimed requests resolved at quiescence and never successful from that connection; retry==true only when the server cannot have processed the request; answered requests at or below last-stream-id succeed exactly; everything resolves exactly once. Exploration only.",
+   text="Generated positions of GOAWAY(last-stream-id, code) relative to 1..5 in-flight requests (bodies buffered or streamed, small, larger than the window and therefore pending, or fed by a reader that blocks until the connection is gone) with partial responses, a possible REFUSED_STREAM, later answers in any order, connection loss, and further requests racing the GOAWAY. Checked per request tag over every connection the client dials: HEADERS at most once unless each earlier copy was disclaimed by its connection; no stream opened after the GOAWAY was seen; disclaimed requests resolved at quiescence and never successful from that connection; retry==true only when the server cannot have processed the request; answered requests at or below last-stream-id succeed exactly; a copy the client sends again carries the original body; everything resolves exactly once. Exploration only.",
    note="Trusted: scripted servers' frame logs; the client's quiescence.",
    ref="6.2 C11"),
  "C12": dict(technique="fault-injecting property-based testing (rapid) of the client: recorded server streams x cut offsets (sampled, and every offset of one fixed recording) x frame mutations x scripted adversaries x transport faults x Close timing; differential oracle for successes against an independent parser of the delivered octets",
-   text="Recorded well-formed response streams are cut at any octet, mutated frame-wise, or interrupted by scripted adversaries, followed by silence / close / reset, with write failures on the client's side or Client.Close() at generated stages. Every RoundTrip must return exactly once within MaxResponseTime plus a margin (misses are reported with the client's goroutine dump), a success must equal the complete well-formed response an independent parser (x/net Framer + strict reference HPACK) finds on that stream in the octets actually delivered, follow-up requests on a fresh connection must get their own responses, no client loop may remain after Close, and the process must survive. Exploration: cut points and mutations are sampled; timing-dependent paths (timeouts, Close races) run with real but short timers.",
+   text="Requests with buffered or streamed bodies (some larger than the window, so still pending when the server's octets arrive); recorded well-formed response streams are cut at any octet, mutated frame-wise, or interrupted by scripted adversaries, followed by silence / close / reset, with write failures on the client's side or Client.Close() at generated stages. Every RoundTrip must return exactly once within MaxResponseTime plus a margin (misses are reported with the client's goroutine dump), a success must equal the complete well-formed response an independent parser (x/net Framer + strict reference HPACK) finds on that stream in the octets actually delivered, after a pure cut followed by silence the rest of the stream may arrive late (after the callers have timed out) and follow-up requests on the same connection must then succeed with blocks that index the late entries; follow-up requests on a fresh connection must get their own responses; a separate lane checks that the number of unanswered PINGs after which a silent server is given up does not depend on the connection's history (metamorphic, counts not durations); no client loop may remain after Close, and the process must survive. Exploration: cut points and mutations are sampled; timing-dependent paths (timeouts, Close races) run with real but short timers.",
    note="Trusted: the reference parser of the delivered octets; wall-clock bound only as 'resolved within timeout + 4 s'.",
    ref="6.2 C12"),
  "C18": dict(technique="property-based testing (rapid) of SETTINGS histories in both roles: invariants over the observed frames (ACK count at quiescence, frame lengths vs the limit in force, open-stream count, strict reference HPACK decoder sized to the advertised table)",
@@ -82,7 +82,7 @@ CHECKS = {
    note="Trusted: strict reference HPACK decoder, scripted peers' ledgers; 'acknowledged in order' is checked as count-at-quiescence (ACK frames carry no identity).",
    ref="6.2 C18"),
  "C19": dict(technique="property-based workload generation (rapid) under the Go race detector plus a pool-ownership observer; race reports parsed and judged by signature",
-   text="Burst-mode and fault workloads generated by the same rapid generators as the connection-level properties (plus two dedicated burst lanes that change SETTINGS while requests, responses, resets and pings are in flight, in both roles) run in a -race binary, server-role cases on three connections at once to share the process-wide pools. Any race report with a library frame in either access stack is a violation (signature = innermost library frame of each access); the pool observer flags double release, objects handed out while owned, and request contexts recycled while their handler runs. Exploration only: schedules are sampled by repetition and parallelism, not enumerated; a race needing one rare preemption can be missed.",
+   text="Burst-mode and fault workloads generated by the same rapid generators as the connection-level properties (plus two dedicated burst lanes that change SETTINGS, INITIAL_WINDOW_SIZE included on the client side, in runs of frames while requests, responses, resets and pings are in flight, in both roles) run in a -race binary, server-role cases on three connections at once to share the process-wide pools. Any race report with a library frame in either access stack is a violation (signature = innermost library frame of each access); the pool observer flags double release, objects handed out while owned, and request contexts recycled while their handler runs. Exploration only: schedules are sampled by repetition and parallelism, not enumerated; a race needing one rare preemption can be missed.",
    note="Trusted: Go race detector (sound for the schedules that actually occur), pool hook; harness-only race reports are treated as inconclusive, not as findings.",
    ref="6.2 C19, section 9"),
 }
